@@ -175,12 +175,41 @@ class _NPList:
         return getattr(self._np, n)
 
 
+class _EqObj:
+    """an object whose == is coarser than the distance function: objects with the same key compare (and hash) equal"""
+
+    def __init__(self, idx, key):
+        self.idx, self.key = idx, key
+
+    def __eq__(self, other):
+        return isinstance(other, _EqObj) and other.key == self.key
+
+    def __ne__(self, other):
+        return not self.__eq__(other)
+
+    def __hash__(self):
+        return hash(self.key)
+
+    def __repr__(self):
+        return f"o{self.idx}"
+
+
+def _objects(m, eq):
+    if not eq:
+        return list(range(m))
+    return [_EqObj(i, 0 if eq == "all" else i // 2) for i in range(m)]
+
+
+def _ix(o):
+    return o.idx if isinstance(o, _EqObj) else o
+
+
 def replay_seq(w):
     from moptipyapps.order1d.instance import Instance
     D = w["D"]
     m = len(D)
-    objs = list(range(m))
-    inst = Instance.from_sequence_and_distance(objs, lambda a, b: D[a][b], 2, 100, ("t",), lambda o: f"o{o}")
+    objs = _objects(m, w.get("eq"))
+    inst = Instance.from_sequence_and_distance(objs, lambda a, b: D[_ix(a)][_ix(b)], 2, 100, ("t",), lambda o: f"o{_ix(o)}")
     kept, rep = py_merge(D)
     info = dict(n=inst.n, expected_n=len(kept))
     tags = list(inst.tags)
@@ -220,7 +249,7 @@ def py_merge(D):
     return kept, rep
 
 
-def job_from_sequence(m, timeout_s=900):
+def job_from_sequence(m, timeout_s=900, eq=None):
     import numpy as np
     import moptipyapps.order1d.instance as oi
     ov = core.install_builtins(dict(Instance=_Recorder, np=_NPList(np), isfinite=lambda v: True))
@@ -245,9 +274,9 @@ def job_from_sequence(m, timeout_s=900):
         calls = []
 
         def get_distance(o1, o2):
-            calls.append((o1, o2))
-            return dist(o1, o2)
-        inst = f(list(range(m)), get_distance, 2, 100, ("t",), lambda o: f"o{o}")
+            calls.append((_ix(o1), _ix(o2)))
+            return dist(_ix(o1), _ix(o2))
+        inst = f(_objects(m, eq), get_distance, 2, 100, ("t",), lambda o: f"o{_ix(o)}")
         mat, tags = inst.distances, inst.tags
         n = len(mat)
         # which originals were kept: objects mapped to themselves in order of their index
@@ -283,7 +312,7 @@ def job_from_sequence(m, timeout_s=900):
         v = eng.violations[0]
         md = {d.name(): v.model[d].as_long() for d in v.model.decls() if z3.is_int_value(v.model[d])}
         D = [[0 if a == b else md.get(f"d_{min(a, b)}_{max(a, b)}", 1) for b in range(m)] for a in range(m)]
-        w = dict(clause="from_sequence", D=D, label=v.label)
+        w = dict(clause="from_sequence", D=D, label=v.label, eq=eq)
         try:
             bad, info = replay(w)
         except Exception as ex:
@@ -294,7 +323,7 @@ def job_from_sequence(m, timeout_s=900):
         return inconclusive(f"model does not replay ({v.label}): {w}", **common)
     if not ok or len(eng.outcomes) < 2:
         return inconclusive(f"not conclusive / vacuous {eng.stats()}", **common)
-    return held(summary=f"from_sequence_and_distance m={m}: {eng.paths} paths {eng.outcomes}", sample=dict(objects=m, outcomes=eng.outcomes), **common)
+    return held(summary=f"from_sequence_and_distance m={m}{' objects comparing equal (' + eq + ') at non-zero distance' if eq else ''}: {eng.paths} paths {eng.outcomes}", sample=dict(objects=m, equality=eq or "identity", outcomes=eng.outcomes), **common)
 
 
 # ------------------------------------------------------------------ flow construction (Instance.__init__)
@@ -478,6 +507,9 @@ def jobs(tier):
         js.append(Job(f"flows/n{n}/p{power}/h{horizon}", job_flows, dict(n=n, power=power, horizon=horizon), "flows", 1800, weight=n))
     for m in (2, 3, 4, 5, 6) + ((7, 8) if tier == "thorough" else ()):
         js.append(Job(f"from-sequence/m{m}", job_from_sequence, dict(m=m, timeout_s=900 if m <= 4 else 3000), "from_sequence", 1000 if m <= 4 else 3300, weight=m))
+    # objects whose == is coarser than the distance function (all equal / equal in pairs): merging must follow the distance only
+    for m, eq in ((3, "all"), (4, "all"), (4, "pairs")) + (((5, "all"), (5, "pairs"), (6, "pairs")) if tier == "thorough" else ()):
+        js.append(Job(f"from-sequence/m{m}/eq-{eq}", job_from_sequence, dict(m=m, timeout_s=900, eq=eq), "from_sequence", 1000, weight=m))
     return js
 
 
